@@ -30,6 +30,32 @@ Theorem C06_source_unquote_to_bytes : forall T s, src_unquote_to_bytes T s = unq
 Proof. exact src_unquote_to_bytes_eq. Qed.
 Print Assumptions C06_source_unquote_to_bytes.
 
+Theorem C06_source_parse_qsl : forall T qs, src_parse_qsl T qs = parse_qsl T qs.
+Proof. exact src_parse_qsl_eq. Qed.
+Print Assumptions C06_source_parse_qsl.
+Theorem C06_source_query_to_text : forall T O q full, src_query_to_text T O q full = query_to_text T O full q.
+Proof. exact src_query_to_text_eq. Qed.
+Print Assumptions C06_source_query_to_text.
+(* parse_url: the statements that split the authority (userinfo / host / port) *)
+Theorem C06_source_split_userinfo : forall au, src_split_userinfo au = split_userinfo au.
+Proof. exact src_split_userinfo_eq. Qed.
+Print Assumptions C06_source_split_userinfo.
+Theorem C06_source_split_hostport : forall O hi,
+  (let '(h, p) := src_split_hostport O hi in do p' <- p; MOk (h, p')) = split_hostport O hi.
+Proof. exact src_split_hostport_eq. Qed.
+Print Assumptions C06_source_split_hostport.
+(* get_authority(with_userinfo=True) and to_text, where the idna codec answers (enc) *)
+Theorem C06_source_get_authority : forall T O enc u full,
+  o_idna_enc O (u_host u) = MOk (enc (u_host u)) ->
+  get_authority T O full u = MOk (src_get_authority T O enc u full).
+Proof. exact src_get_authority_eq. Qed.
+Print Assumptions C06_source_get_authority.
+Theorem C06_source_to_text : forall T O enc u full,
+  o_idna_enc O (u_host u) = MOk (enc (u_host u)) ->
+  to_text T O full u = MOk (src_to_text T O enc u full).
+Proof. exact src_to_text_eq. Qed.
+Print Assumptions C06_source_to_text.
+
 (* (T) the regenerated tables: every map entry is the byte itself or %XX, a byte is left
    unescaped only where RFC 3986 allows it at that position (so never a character the
    parser splits on there: userinfo :@/?#  segment /?#  query part &;=+#  fragment #),
